@@ -34,7 +34,9 @@ if os.path.exists(prev):
         r = line.rstrip("\n").split("\t")
         if len(r) >= 4 and not line.startswith("#"):
             results[(r[0], r[1], r[2])] = r
-for (prop, rule, path, old, new, what) in MUTANTS:
+for entry in MUTANTS:
+    (prop, rule, path, old, new, what) = entry[:6]
+    every = len(entry) > 6 and entry[6] == "all"
     if want and prop not in want:
         continue
     if only_rule and rule != only_rule:
@@ -46,7 +48,7 @@ for (prop, rule, path, old, new, what) in MUTANTS:
         sys.exit(3)
     full = os.path.join(REPO, path)
     src = open(full).read()
-    if src.count(old) != 1:
+    if src.count(old) != 1 and not (every and src.count(old) > 1):
         res = f"NOAPPLY({src.count(old)} occurrences)"
         keys = ""
     else:
